@@ -124,5 +124,16 @@ PROPS["C04"] = {
     "note": "call parser and body generation are not under contract; dict.items() modelled as some enumeration of entries.",
     "undecided": ["name capture", "imports added in other modules for all shapes", "behaviour for all inputs"],
 }
+PROPS["C13"] = {
+    "sidecars": ["c13_caches.py"],
+    "level": "proof",
+    "claim": "Proof level for the per-operation cache contracts: after a change notification _FileListCacher either drops its list or the list already contained "
+             "the changed file (so a write that creates a file cannot leave a stale list), every create/move/remove/validate notification drops it, and "
+             "_ModuleCache._invalidate_resource removes exactly the changed resource and forgets all concluded data whenever a cached module or package "
+             "changes -- for every cache state.  The whole-history clause (answers equal a fresh project's) is a seeded random exploration plus fixed scenarios.",
+    "note": "observer wiring (which notification reaches which cache) and the pyobjects-side concluded-data mechanism are not under contract; the sqlite "
+            "auto-import index is not covered.",
+    "undecided": ["whole-history coherence for all histories", "concluded data across modules", "auto-import index"],
+}
 _NB = "check not built yet (framework under construction; see DESIGN.md section 8)"
 NOT_APPLICABLE = {"C%02d" % i: _NB for i in range(1, 21)}
